@@ -78,6 +78,22 @@ def run(chk):
         if r != w:
             chk.violate({"kind": "property", "case": lib.show_case(("rall", [t])), "impl": r[:2000], "expected": w[:2000],
                          "explanation": "a well-formed deb822 document was not read back as its paragraphs, fields and logical lines"})
+    # 1b. physical lines longer than any read buffer (4096 bytes and more): judged against the document model on the
+    #     implementation only (the extracted model's list functions are quadratic in the line length)
+    ltexts, lwant = [], []
+    for _ in range(chk.n(60, 600)):
+        d = debgen.rand_doc(rng, 2, 3, 2, long=0.35)
+        t = debgen.render(d, rng, free=rng.random() < 0.5)
+        if debgen.has_uspace(t):
+            continue
+        ltexts.append(t); lwant.append(debgen.expected(d))
+    lc = [("rall", [t]) for t in ltexts]
+    li = chk.run_impl(lc)
+    chk.record("long-lines", lc, li)
+    for c, r, w in zip(lc, li, lwant):
+        if r != w:
+            chk.violate({"kind": "property", "case": lib.show_case(("rall", [c[1][0][:300] + b"...<%d bytes>" % len(c[1][0])])), "impl": r[:600], "expected": w[:600],
+                         "explanation": "a well-formed deb822 document with physical lines of 4096 bytes and more was not read back as its paragraphs, fields and logical lines"})
     # 2. mutations: orphan continuation, duplicate field, stray CR, whitespace-only lines, missing colon ...
     mut = []
     for t in rng.sample(texts, min(len(texts), chk.n(600, 6000))):
